@@ -227,6 +227,10 @@ var vPoolHeld = map[int][]byte{}
 var vPoolNext int
 
 func init() {
+	// the package-level resolver looks every registered name up every two seconds; in this harness every resolution
+	// outcome is scripted, a real (failing) look-up in between would be an outcome nobody scripted
+	dynamicHostResolver.Stop()
+
 	vReg("rr new", func(a []string) string {
 		vRR = NewRoundRobinBackend()
 		vRRSink = nil
@@ -465,6 +469,48 @@ func init() {
 		vRR2 = append(vRR2, rr2)
 		waitGoroutines(base)
 		return rrState()
+	})
+	// res3 real <proto> <port> <hostname>: the resolver's OWN periodic loop (interval 1 s) feeds the failures: the name
+	// (under .invalid: it never resolves) gets one scripted success, then the loop's real, failing look-ups must empty
+	// the rotation after the fourth one
+	vReg("res3 real", func(a []string) string {
+		r := NewDynamicHostResolver(1)
+		defer r.Stop()
+		rr := NewRoundRobinBackend()
+		host := unhx(a[2])
+		r.ResolveHost(host, func(hostname string, newIPs []string, removedIPs []string) {
+			rr.hostIPChanged(a[0], "127.0.0.1:0", hostname, newIPs, removedIPs, a[1], func(conn net.Conn) {})
+		})
+		r.addressResolved(host, []string{"127.0.1.1", "127.0.1.2"}, nil)
+		deadline := time.Now().Add(2 * time.Second)
+		for time.Now().Before(deadline) {
+			rr.Lock()
+			n := len(rr.backends)
+			rr.Unlock()
+			if n == 2 {
+				break
+			}
+			time.Sleep(time.Millisecond)
+		}
+		rr.Lock()
+		n0 := len(rr.backends)
+		rr.Unlock()
+		if n0 != 2 {
+			return "success-not-applied"
+		}
+		deadline = time.Now().Add(9 * time.Second)
+		for time.Now().Before(deadline) {
+			rr.Lock()
+			n := len(rr.backends)
+			rr.Unlock()
+			if n == 0 {
+				rr.Close()
+				return "emptied-after-failures"
+			}
+			time.Sleep(20 * time.Millisecond)
+		}
+		rr.Close()
+		return "still-has-members"
 	})
 	vReg("res2 ok", func(a []string) string {
 		addrs := make([]string, 0)
